@@ -266,8 +266,10 @@ func (c *Conn) Close() error {
 		k = "SockClose"
 	}
 	c.rig.Log.Add(Ev{K: k, Conn: c.id})
+	// close the socket first, then let a held Write go: it must see a closed socket
+	err := c.Conn.Close()
 	c.closeOnce.Do(func() { close(c.closed) })
-	return c.Conn.Close()
+	return err
 }
 
 // ---------------------------------------------------------------- upstream side
